@@ -339,7 +339,7 @@ func tsAlphabet(maxFault int) []tsOp {
 	for k := 1; k <= 2; k++ {
 		base = append(base, tsOp{kind: "get", k: k, name: fmt.Sprintf("Get(%d)", k)}, tsOp{kind: "has", k: k, name: fmt.Sprintf("Has(%d)", k)},
 			tsOp{kind: "delete", k: k, name: fmt.Sprintf("Delete(%d)", k)})
-		for v := 1; v <= 2; v++ {
+		for _, v := range []int{1, 7} { // 7 is the value whose encoding has zero length
 			base = append(base, tsOp{kind: "set", k: k, v: v, name: fmt.Sprintf("Set(%d,%d)", k, v)})
 		}
 	}
@@ -491,7 +491,7 @@ func (in *tsInst) Apply(i int) string {
 	var bad string
 	_ = in.base.Iterate(kvstore.EmptyPrefix, func(k, v []byte) bool {
 		n++
-		if len(k) != 1 || len(v) != 1 || in.model[int(k[0])] != int(v[0]) {
+		if len(k) != 1 || in.model[int(k[0])] != rawVal(v) {
 			bad = fmt.Sprintf("%x=%x", k, v)
 		}
 		return true
